@@ -26,7 +26,7 @@ ASSUMPTIONS = ["outcomes drawn from the reference Born distribution at the initi
 @st.composite
 def runs(draw, tier):
     t = draw(st.sampled_from(gen.TYPES))
-    sc = draw(gen.state_case(types=[t], n=(1, 3), nh=(1, 3), na=(1, 2), scales=[0.05, 0.5, 0.5, 2.0, 2.0, 8.0, 20.0], bound=45.0))
+    sc = draw(gen.state_case(types=[t], n=(1, 3), nh=(1, 3), na=(1, 2), scales=[0.05, 0.5, 0.5, 2.0, 2.0, 8.0, 20.0], bound=45.0, unitaries=True))
     n = sc["n"]
     polarised = draw(st.integers(0, 3)) == 0
     if polarised:
@@ -47,10 +47,11 @@ def runs(draw, tier):
         N = draw(st.integers(1, 9))
         pbs, nbs, k = draw(st.integers(1, 5)), draw(st.one_of(st.none(), st.integers(1, 5))), draw(st.integers(0, 3))
     U01 = st.floats(0, 1, exclude_max=True, allow_nan=False, width=64)
-    allb = gen.basis_strings(n)
+    allb = gen.basis_strings(n, "XYZ" + "".join(sorted(k for k in (sc.get("unitaries") or {}) if k not in "XYZ")))     # user letters may appear in measurement bases
     rows = []
+    all_ref = t != "positive" and draw(st.integers(0, 9)) == 0      # a complex / mixed state trained on reference-basis data only
     for i in range(N):
-        b = "Z" * n if (t == "positive" or i == 0) else draw(st.sampled_from(allb))
+        b = "Z" * n if (t == "positive" or i == 0 or all_ref) else draw(st.sampled_from(allb))
         if polarised and t != "positive" and n >= 2 and i == 1:
             j = draw(st.integers(0, n - 1))
             b = "Z" * j + draw(st.sampled_from("XY")) + "Z" * (n - 1 - j)       # exactly one rotated site: the other sites keep their (tiny) weights
@@ -261,7 +262,10 @@ def check(case):
                     want = pos_p[key][NAMES[pn]].reshape(g.shape)
                     if net == "rbm_am":
                         want = want - neg_p[NAMES[pn]].reshape(g.shape)
-                    tol = (2e-10 + 50 * 2.2e-16 / min(probs)) * (1 + (float(want.abs().max()) if want.numel() else 0.0))
+                    prec_ = 2e-10 + 50 * 2.2e-16 / min(probs)
+                    if t == "density" and gen.max_preactivation(sc) > 18.0:
+                        prec_ = max(prec_, 1e-8)          # see c03.py
+                    tol = prec_ * (1 + (float(want.abs().max()) if want.numel() else 0.0))
                     require(bool(torch.all((g.double() - want).abs() <= tol)), f"precision:cd-gradient:{net}.{pn}",
                             f"step 0: the gradient handed to the optimizer for {net}.{pn} is not accurate to double precision (2e-10 of its scale)",
                             worst=float((g.double() - want).abs().max()) if want.numel() else 0.0, scale=float(want.abs().max()) if want.numel() else 0.0)
